@@ -51,12 +51,12 @@ example : ¬ Reach (succ2 2 [[[1], [2]], [[0, 4], [0]], [[7]]]) 0 3 :=
     the graph the other theorems evaluate): the translator succeeded; there is one adjacency row per
     node; roots (entries, generators, secrets) and every edge target are nodes, hence so is everything
     reachable from a root; classified nodes are standard-library leaves without out-edges; seeders are
-    `math/rand` functions; entries, generators and secrets were found. -/
+    `math/rand` functions; entries, generators in use and secrets were found. -/
 theorem graph_closed : model.WellFormed :=
   Model.closedB_spec model (by decide +kernel)
 
 /- the hypotheses are inhabited: the graph has rows and roots -/
-example : 0 < model.numNodes ∧ model.entries.length ≥ 3 ∧ model.generators.length ≥ 4 ∧ model.secrets.length = 4 := by
+example : 0 < model.numNodes ∧ model.entries.length ≥ 3 ∧ model.usedGenerators.length ≥ 4 ∧ model.secrets.length = 4 := by
   decide +kernel
 
 /-- **Secrets come from `crypto/rand`, never from `math/rand`** — for every generator function
@@ -99,6 +99,21 @@ theorem no_reseed :
   have h := (secrets_from_crypto g hg).1
   exact ⟨fun hr => h s hr (graph_closed.seeders_math s hs), h⟩
 
+/- The hypotheses are satisfiable together with the conclusion — a miniature of the repaired program:
+   entry 0 calls the seeder 1 and the generator 2; the generator calls crypto/rand (3); node 4 is a
+   math/rand consumer the entry also calls (the session id). -/
+private def toy : Model :=
+  { adj := [[[1, 2, 4], []], [[3], []], [[]]], chunk := 2, numNodes := 5, leaves := [1, 3, 4],
+    cryptoRand := [3], mathRand := [1, 4], seeders := [1], clock := [], suspect := [], readerStores := [],
+    entries := [0], generators := [2], usedGenerators := [2], secrets := [2], witnessPaths := [[0, 2]],
+    seedPath := [0, 1], ok := true }
+example : toy.closedB = true ∧ toy.allSourcesOK = true ∧ toy.seedPathOK = true := by decide +kernel
+example : ∃ e, e ∈ toy.entries ∧ ∃ s, s ∈ toy.seeders ∧ Reach toy.sc e s :=
+  Model.seedPathOK_spec toy (by decide +kernel) (by decide)
+/- and a miniature of the unrepaired program fails the check: the generator reads math/rand -/
+example : ({ toy with adj := [[[1, 2, 4], []], [[4], []], [[]]] } : Model).allSourcesOK = false := by
+  decide +kernel
+
 /-- the emitted seeder path is a path of the graph from an entry point to a seeder (so, as long as the
     translator finds one, the hypothesis of `no_reseed` is satisfiable: a client constructor does reseed
     `math/rand`) -/
@@ -106,10 +121,15 @@ theorem seed_path_valid :
     model.seedPath ≠ [] → ∃ e, e ∈ model.entries ∧ ∃ s, s ∈ model.seeders ∧ Reach model.sc e s :=
   Model.seedPathOK_spec model (by decide +kernel)
 
-/-- **The generators are on the paths from the entry points**: every generator is reachable from an
-    entry point (witness paths emitted by the translator, checked edge by edge). -/
+/-- **The generators are on the paths from the entry points**: every generator in use (found by the
+    def-use extraction, or an anchor that is called) is reachable from an entry point — witness paths
+    emitted by the translator, checked edge by edge. (`graph_closed` says there is at least one, and
+    that they are among the generators `secrets_from_crypto` speaks about.) -/
 theorem generators_reachable :
-    ∀ g, g ∈ model.generators → ∃ e, e ∈ model.entries ∧ Reach model.sc e g :=
-  Model.witnessesOK_spec model model.generators model.witnessPaths (by decide +kernel)
+    ∀ g, g ∈ model.usedGenerators → ∃ e, e ∈ model.entries ∧ Reach model.sc e g :=
+  Model.witnessesOK_spec model model.usedGenerators model.witnessPaths (by decide +kernel)
+
+/- not vacuous: some generator is in use -/
+example : model.usedGenerators ≠ [] := graph_closed.generators_ne
 
 end Mtv.Rand
